@@ -42,6 +42,9 @@ def replay_args(tag, rec):
             exp = ['%d.txt' % i for i in range(rec['numinst'])]
             cl('C15', 'accepted_no_exception_all_files', r['outcome'] == 'ok' and r['listing'] == exp,
                'Generator(%s) -> %s, files %s' % (' '.join(r['argv']), r['outcome'], r['listing']))
+            # the same observation is a statement of C08 too ("each accepted run writes exactly the requested number of files")
+            cl('C08', 'accepted_run_writes_requested_files', r['outcome'] == 'ok' and r['listing'] == exp,
+               'Generator(%s) -> %s, files %s' % (' '.join(r['argv']), r['outcome'], r['listing']))
             if r['outcome'] == 'ok':
                 traces.append({'args': {'mp': rec['mp'], 'numinst': rec['numinst'], 'given': sorted(rec['given']), 'v': rec['v']},
                                'listing': gendrive.listing_numbers(r['listing']), 'files': r['files'], 'seed': sd, 'key': key})
